@@ -239,9 +239,16 @@ fn print_item(it: &Item, out: &mut String) {
         Item::Lit(c, s) => print_lit(*c, *s, out),
         Item::DotVerbatim => out.push('.'),
         Item::Range(a, b) => {
-            print_lit(*a, LitStyle::Verbatim, out);
+            let style = |c: char| {
+                if c.is_ascii_graphic() || (c as u32 > 0xA0 && c as u32 != 0x2028 && c as u32 != 0x2029 && !c.is_control()) {
+                    LitStyle::Verbatim
+                } else {
+                    LitStyle::UBrace
+                }
+            };
+            print_lit(*a, style(*a), out);
             out.push('-');
-            print_lit(*b, LitStyle::Verbatim, out);
+            print_lit(*b, style(*b), out);
         }
         Item::Perl(k, n) => print_perl(*k, *n, out),
         Item::Ascii(k, n) => {
